@@ -30,7 +30,7 @@ def main():
     sh("git -C /repo worktree remove --force %s" % wt)
     r = sh("git -C /repo worktree add -q --detach %s HEAD" % wt)
     try:
-        r = sh("g++ -std=c++17 -O1 -I%s/include %s %s/src/*.cpp -o %s/demo_clean && %s/demo_clean" % (wt, demo, wt, wt, wt), timeout=600)
+        r = sh("g++ -std=c++17 -O1 -pthread -I%s/include %s %s/src/*.cpp -o %s/demo_clean && %s/demo_clean" % (wt, demo, wt, wt, wt), timeout=600)
         info["ran"]["demo_on_clean_tree_exit"] = r.returncode
         r = sh("git -C %s apply %s" % (wt, os.path.abspath(patch)))
         if r.returncode != 0:
@@ -38,7 +38,7 @@ def main():
             raise SystemExit("patch does not apply: " + r.stdout[-300:])
         r = sh("cd %s && cmake -G Ninja -B _b . >/dev/null && cmake --build _b 2>&1 | tail -2 && ./_b/bin/test_asam_cmp | tail -1" % wt, timeout=1200)
         info["ran"]["tests_with_change"] = r.stdout.strip().splitlines()[-1] if r.stdout.strip() else "?"
-        r = sh("g++ -std=c++17 -O1 -I%s/include %s %s/src/*.cpp -o %s/demo_mut && %s/demo_mut" % (wt, demo, wt, wt, wt), timeout=600)
+        r = sh("g++ -std=c++17 -O1 -pthread -I%s/include %s %s/src/*.cpp -o %s/demo_mut && %s/demo_mut" % (wt, demo, wt, wt, wt), timeout=600)
         info["ran"]["demo_with_change_exit"] = r.returncode
         info["ran"]["demo_with_change_output"] = r.stdout[-600:]
     except BaseException:
